@@ -81,7 +81,7 @@ def coerce_int(maybe_int: _ScalarValue) -> int:
     else:
         raise ValueError(INVALID_INT, repr(maybe_int))
 
-    if not (MIN_INT < numeric < MAX_INT):
+    if not (MIN_INT <= numeric <= MAX_INT):
         raise ValueError(INVALID_NUMERIC % maybe_int)
 
     return numeric
